@@ -12,6 +12,7 @@
 //	rep   Bridge.reportTrafficStats under a forced interleaving (gated CloudControl)
 //	brg   Bridge.Close, cleanup report racing the periodic goroutine's final report
 //	sp    StreamProcessor.Close against an in-flight ReadPacket/WritePacket (gated transport)
+//	mgr   memory storage / SessionManager Close × N, background goroutines gone afterwards
 package main
 
 import (
@@ -48,6 +49,8 @@ func exec(caseStr string) (obs string) {
 			return runBrg(t)
 		case "sp":
 			return runSp(t)
+		case "mgr":
+			return runMgr(t)
 		}
 		return "bad case"
 	})
@@ -115,7 +118,7 @@ var tunClosers = []string{"c0", "c1", "c2", "c3", "c4", "c5", "p", "a", "x"}
 func gen(out *vc.Out, r *vc.Rand, thorough bool) {
 	mul := 1
 	if thorough {
-		mul = 8
+		mul = 3
 	}
 	ms := func() string { return fmt.Sprintf("ms %d", r.Intn(1<<30)) }
 
@@ -170,7 +173,7 @@ func gen(out *vc.Out, r *vc.Rand, thorough bool) {
 	// rep: every schedule of length ≤ L over 2 threads (one round), then random multi-round cases
 	L := 5
 	if thorough {
-		L = 8
+		L = 7
 	}
 	for l := 0; l <= L; l++ {
 		for code := 0; code < 1<<l; code++ {
@@ -214,6 +217,13 @@ func gen(out *vc.Out, r *vc.Rand, thorough bool) {
 	}
 	emit(out, "", fmt.Sprintf("sp op z chunks 0 cut -1 n 16 rep %d %s", 50*mul, ms()))
 
+	// mgr: storage and session manager, several closer counts
+	for _, kind := range []string{"st", "sm"} {
+		for _, n := range []int{1, 2, 8} {
+			emit(out, "", fmt.Sprintf("mgr kind %s n %d rep %d %s", kind, n, 5*mul, ms()))
+		}
+	}
+
 	// brg: closers × started or not × byte counts
 	brgSets := [][]string{{"c"}, {"c", "c"}, {"c", "c", "c", "c"}, {"e"}, {"f"}, {"c", "e"}, {"c", "f", "e"}, {"e", "f"}}
 	for _, cl := range brgSets {
@@ -242,6 +252,7 @@ func main() {
 	exec("tun init 1 role 0 tgt 1 cl 1 c0 rep 1 ms 0")
 	exec("sp op z chunks 0 cut -1 n 1 rep 1 ms 0")
 	exec("brg b 1 1 start 1 cl 1 c rep 1 ms 0")
+	exec("mgr kind sm n 1 rep 1 ms 0")
 	for _, f := range flag.Args() {
 		replayFile(out, f)
 	}
